@@ -7,7 +7,7 @@ from `m.Empty()`, combines exactly `par` partial results, sends on `done` (capac
 import Golem.Props.C10
 import Golem.Props.Stage.ForkFold
 namespace Golem.Props.C10
-open Golem.Go Golem.Go.Stage Golem.Go.Pool Golem.Model Golem.Model.DSL Golem.Props.Stage
+open Golem.Go Golem.Go.Stage Golem.Go.Pool Golem.Model Golem.Model.DSL Golem.Props.Stage Golem.Lemmas.ForkFold
 
 variable {α : Type}
 
@@ -24,5 +24,23 @@ theorem gen_forkfold_workers (c : α → α → α) (e : α) :
     Gen.Fork.Fold.cfg.workers = .par := by
   refine ⟨?_, rfl, fun _ => rfl, rfl⟩
   rw [ForkFold.stage_gen]
+
+/-- The collector as REGENERATED, run on what the network hands it. In every reachable state of `Go/ForkFold` in which
+the collector is still waiting and all workers have exited (the moment `wg.Wait()` returns), `vals` holds exactly `par`
+partial results; the regenerated collector program then sends their left fold from `m.Empty()` on `done` exactly once,
+closes `done` and `vals` and leaves `vals` empty — what `Go/ForkFold.collNext` does from that state (`cinv_coll`). -/
+theorem gen_collector_at_wait (c : α → α → α) (e : α) (par inCap : Nat) (gated : Bool) {s : FF α}
+    (hr : FF.Reachable c e par (FF.init e par inCap gated) s) (hw : s.coll = .waiting) (hx : s.pool.allExited = true) :
+    (collRun c e par 1 0 Gen.Fork.Fold.collector { vals := (s.pool.outs 0).buf }).map CollSt.obs =
+      some ([(s.pool.outs 0).buf.foldl c e], true, true, []) := by
+  obtain ⟨hinv, hn, _, _⟩ := pool_inv c e par inCap gated hr
+  have hc := cinv_reachable c e par inCap gated hr
+  have hlen := vals_length_exited c e hinv hx
+  have hd : s.pool.delivered 0 = [] := by
+    have := hc.2
+    rw [hw] at this
+    exact this.1
+  rw [hd, hn] at hlen
+  exact ForkFold.collector_gen c e par _ (by simpa using hlen)
 
 end Golem.Props.C10
